@@ -15,6 +15,8 @@
 //	def memoize (rule begin tokenIndexStart : Nat) (matched : Bool) (s : RT) : Option RT
 //	def memoizedResult (m : Memo) (s : RT) : Option (Bool × RT)
 //	def matchDot (s : RT) : Option (Bool × RT)
+//	def parse (ruleFn : Int → RT → Option (Bool × RT)) (rule : List Int) (s : RT) : Option (Option Tok × RT)   (L30, scheme at parseClosure)
+//	def Parse … := parse …      def Reset (s : RT) : Option RT := reset s
 //
 // Translation scheme (every path of a body ends in `some …`; `none` = a Go panic):
 //
@@ -102,7 +104,7 @@ func (g *rtGen) name(prefix string) string {
 
 func rtLocalName(n string) string {
 	switch n {
-	case `end`, `at`, `from`, `do`, `then`, `else`, `fun`, `let`, `in`, `show`, `have`, `open`, `def`, `max`, `s`:
+	case `end`, `at`, `from`, `do`, `then`, `else`, `fun`, `let`, `in`, `show`, `have`, `open`, `def`, `max`, `s`, `matches`, `match`:
 		return n + `_`
 	}
 	return n
@@ -849,6 +851,7 @@ func genPegRuntime(repo, out string) (err error) {
 
 	var initFn *ast.FuncDecl
 	methods := map[string]*ast.FuncDecl{}
+	pmethods := map[string]*ast.FuncDecl{}
 	endSymbol := ``
 	seenType := map[string]bool{}
 	for _, decl := range file.Decls {
@@ -868,6 +871,12 @@ func genPegRuntime(repo, out string) (err error) {
 						g.fail(t.Pos(), `two Init methods`)
 					}
 					initFn = t
+				}
+				if t.Name.Name == `Parse` || t.Name.Name == `Reset` {
+					if _, dup := pmethods[t.Name.Name]; dup {
+						g.fail(t.Pos(), `method declared twice`)
+					}
+					pmethods[t.Name.Name] = t
 				}
 			case `tokens32`:
 				if _, dup := methods[t.Name.Name]; dup {
@@ -919,7 +928,10 @@ func genPegRuntime(repo, out string) (err error) {
 	b.WriteString("The bodies of tokens32.Add/Trim/Tokens and of the closures reset, add, memoize, memoizedResult, matchDot of\n")
 	b.WriteString("(*pegJSONPathParser).Init, translated statement by statement (scheme: header of pegruntime.go) over the\n")
 	b.WriteString("runtime state `RT` of JPV/Peg/RuntimeModel.lean. `none` = a Go panic (index or slice bound out of range).\n")
-	b.WriteString("Theorems about these definitions: JPV/Props/PegRuntimeGen.lean (`PR_*`).\n-/\n")
+	b.WriteString("Also (L30) the closure `parse` of Init and the methods Parse / Reset of the parser: `parse` takes the call\n")
+	b.WriteString("`p.rules[r]()` as a parameter `ruleFn r` (none = index out of range, nil entry or a panic inside), publishes the\n")
+	b.WriteString("token tree (`p.tokens32 = tree` is `ptree := tree`) and returns `none` for a nil error, `some max` for `&parseError{p, max}`.\n")
+	b.WriteString("Theorems about these definitions: JPV/Props/PegRuntimeGen.lean (`PR_*`), JPV/Props/RunGoGen.lean (`RG_Parse_*`).\n-/\n")
 	b.WriteString("import JPV.Peg.RuntimeModel\nnamespace JPV.Gen.PegRuntime\nopen JPV.Peg.Runtime\n\n")
 	fmt.Fprintf(&b, "/-- `const endSymbol rune` -/\ndef endSymbol : Nat := %s\n\n", endSymbol)
 
@@ -972,8 +984,8 @@ func genPegRuntime(repo, out string) (err error) {
 			}
 			n := rtSelName(t.Lhs[0])
 			switch n {
-			case `p.reset`, `add`, `memoize`, `memoizedResult`, `matchDot`:
-				if (n == `p.reset`) != (t.Tok == token.ASSIGN) {
+			case `p.reset`, `p.parse`, `add`, `memoize`, `memoizedResult`, `matchDot`:
+				if (n == `p.reset` || n == `p.parse`) != (t.Tok == token.ASSIGN) {
 					g.fail(t.Pos(), `closure `+n+` bound with the wrong kind of assignment`)
 				}
 				if _, dup := closures[n]; dup {
@@ -999,6 +1011,199 @@ func genPegRuntime(repo, out string) (err error) {
 		}
 		g.function(&b, strings.TrimPrefix(n, `p.`), fl.Type, fl.Body, newRtEnv(true, ``))
 	}
+	if closures[`p.parse`] == nil {
+		g.fail(initFn.Pos(), `closure p.parse not found in Init`)
+	}
+	g.parseClosure(&b, closures[`p.parse`])
+	g.parserMethods(&b, pmethods, file)
 	b.WriteString("end JPV.Gen.PegRuntime\n")
 	return os.WriteFile(filepath.Join(out, `PegRuntimeGo.lean`), []byte(b.String()), 0o644)
+}
+
+// ---------------------------------------------------------------- parse / Parse / Reset (L30)
+//
+// The closure `p.parse = func(rule ...int) error {…}` of Init, statement by statement, with its own small repertoire
+// (anything else is refused):
+//
+//	x := 1                                   let x : Int := 1
+//	if len(v) > 0 { x = v[0] }               (if decide ((v.length : Int) > 0) then getAtI v 0 else some x).bind fun x =>
+//	m := p.rules[x]()                        (ruleFn x s).bind fun ms => let m := ms.1; let s := ms.2
+//	p.tokens32 = tree                        let s := { s with ptree := s.tree }
+//	p.Trim(E)                                (tokens32_Trim E s.ptree).bind fun tN => let s := { s with ptree := tN }
+//	if m { A }; R                            if m then ⟦A; R⟧ else ⟦R⟧
+//	return nil                               some (none, s)
+//	return &parseError{p, E}                 some (some E, s)
+func (g *rtGen) parseClosure(b *strings.Builder, fl *ast.FuncLit) {
+	ft := fl.Type
+	if ft.Params == nil || len(ft.Params.List) != 1 || len(ft.Params.List[0].Names) != 1 {
+		g.fail(fl.Pos(), `parse does not have exactly one parameter`)
+	}
+	ell, ok := ft.Params.List[0].Type.(*ast.Ellipsis)
+	if !ok || !prIdent(ell.Elt, `int`) {
+		g.fail(fl.Pos(), `the parameter of parse is not "...int"`)
+	}
+	if ft.Results == nil || len(ft.Results.List) != 1 || len(ft.Results.List[0].Names) != 0 || !prIdent(ft.Results.List[0].Type, `error`) {
+		g.fail(fl.Pos(), `the result of parse is not "error"`)
+	}
+	v := ft.Params.List[0].Names[0].Name
+	g.fresh = 0
+	pc := &rtParse{g: g, v: v, ints: map[string]bool{}, bools: map[string]bool{}, env: newRtEnv(true, ``)}
+	fmt.Fprintf(b, "/-- jsonpath.peg.go:%d — the closure `p.parse`; `ruleFn r` is the call `p.rules[r]()` -/\n", g.fset.Position(fl.Body.Pos()).Line)
+	fmt.Fprintf(b, "def parse (ruleFn : Int → RT → Option (Bool × RT)) (%s : List Int) (s : RT) : Option (Option Tok × RT) :=\n", rtLocalName(v))
+	b.WriteString(pc.stmts(fl.Body.List, `  `, fl.Body.End()))
+	b.WriteString("\n")
+}
+
+type rtParse struct {
+	g     *rtGen
+	v     string
+	ints  map[string]bool
+	bools map[string]bool
+	env   *rtEnv
+}
+
+func (pc *rtParse) stmts(list []ast.Stmt, ind string, end token.Pos) string {
+	g := pc.g
+	if len(list) == 0 {
+		g.fail(end, `parse can fall off its end without a return`)
+	}
+	st, rest := list[0], list[1:]
+	switch t := st.(type) {
+	case *ast.AssignStmt:
+		if len(t.Lhs) != 1 || len(t.Rhs) != 1 {
+			g.fail(t.Pos(), `assignment in parse`)
+		}
+		if t.Tok == token.DEFINE {
+			x := prIdentName(t.Lhs[0])
+			if x == `` || x == pc.v || pc.ints[x] || pc.bools[x] {
+				g.fail(t.Pos(), `definition in parse`)
+			}
+			if bl, ok := t.Rhs[0].(*ast.BasicLit); ok && bl.Kind == token.INT && isDigits(bl.Value) {
+				pc.ints[x] = true
+				return ind + "let " + rtLocalName(x) + " : Int := " + bl.Value + "\n" + pc.stmts(rest, ind, end)
+			}
+			if call, ok := t.Rhs[0].(*ast.CallExpr); ok && len(call.Args) == 0 {
+				if ix, ok := call.Fun.(*ast.IndexExpr); ok && rtSelName(ix.X) == `p.rules` && pc.ints[prIdentName(ix.Index)] {
+					pc.bools[x] = true
+					ms := g.name(`ms`)
+					return ind + "(ruleFn " + rtLocalName(prIdentName(ix.Index)) + " s).bind fun " + ms + " =>\n" +
+						ind + "let " + rtLocalName(x) + " := " + ms + ".1\n" + ind + "let s := " + ms + ".2\n" + pc.stmts(rest, ind, end)
+				}
+			}
+			g.fail(t.Pos(), `definition in parse: `+prPrint(g.fset, t))
+		}
+		if t.Tok == token.ASSIGN && rtSelName(t.Lhs[0]) == `p.tokens32` && prIdent(t.Rhs[0], `tree`) {
+			return ind + "let s := { s with ptree := s.tree }\n" + pc.stmts(rest, ind, end)
+		}
+		g.fail(t.Pos(), `assignment in parse: `+prPrint(g.fset, t))
+	case *ast.IfStmt:
+		if t.Init != nil || t.Else != nil {
+			g.fail(t.Pos(), `if with init or else in parse`)
+		}
+		// if len(v) > 0 { x = v[0] }
+		if be, ok := t.Cond.(*ast.BinaryExpr); ok {
+			call, ok1 := be.X.(*ast.CallExpr)
+			lit, ok2 := be.Y.(*ast.BasicLit)
+			if be.Op == token.GTR && ok1 && ok2 && lit.Value == `0` && prIdent(call.Fun, `len`) && len(call.Args) == 1 && prIdent(call.Args[0], pc.v) && len(t.Body.List) == 1 {
+				if as, ok := t.Body.List[0].(*ast.AssignStmt); ok && as.Tok == token.ASSIGN && len(as.Lhs) == 1 && len(as.Rhs) == 1 && pc.ints[prIdentName(as.Lhs[0])] {
+					if ix, ok := as.Rhs[0].(*ast.IndexExpr); ok && prIdent(ix.X, pc.v) {
+						if il, ok := ix.Index.(*ast.BasicLit); ok && il.Kind == token.INT && isDigits(il.Value) {
+							x := rtLocalName(prIdentName(as.Lhs[0]))
+							vv := rtLocalName(pc.v)
+							return ind + "(if decide ((" + vv + ".length : Int) > 0) then getAtI " + vv + " " + il.Value + " else some " + x + ").bind fun " + x + " =>\n" + pc.stmts(rest, ind, end)
+						}
+					}
+				}
+			}
+			g.fail(t.Pos(), `if in parse: `+prPrint(g.fset, t.Cond))
+		}
+		m := prIdentName(t.Cond)
+		if !pc.bools[m] {
+			g.fail(t.Pos(), `if in parse: `+prPrint(g.fset, t.Cond))
+		}
+		body := append([]ast.Stmt(nil), t.Body.List...)
+		if n := len(body); n == 0 || !rtIsReturn(body[n-1]) {
+			body = append(body, rest...)
+		}
+		return ind + "if " + rtLocalName(m) + " then\n" + pc.stmts(body, ind+`  `, end) + ind + "else\n" + pc.stmts(rest, ind+`  `, end)
+	case *ast.ExprStmt:
+		call, ok := t.X.(*ast.CallExpr)
+		if ok && rtSelName(call.Fun) == `p.Trim` && len(call.Args) == 1 && g.have[`Trim`] {
+			var hoist []string
+			a := g.expr(call.Args[0], pc.env, &hoist)
+			if a.typ != `u32` || len(hoist) != 0 {
+				g.fail(t.Pos(), `argument of p.Trim`)
+			}
+			tv := g.name(`t`)
+			return ind + "(tokens32_Trim " + a.term + " s.ptree).bind fun " + tv + " =>\n" + ind + "let s := { s with ptree := " + tv + " }\n" + pc.stmts(rest, ind, end)
+		}
+		g.fail(t.Pos(), `statement in parse: `+prPrint(g.fset, t))
+	case *ast.ReturnStmt:
+		if len(rest) != 0 || len(t.Results) != 1 {
+			g.fail(t.Pos(), `return in parse`)
+		}
+		if prIdent(t.Results[0], `nil`) {
+			return ind + "some (none, s)\n"
+		}
+		if ue, ok := t.Results[0].(*ast.UnaryExpr); ok && ue.Op == token.AND {
+			if cl, ok := ue.X.(*ast.CompositeLit); ok && prIdent(cl.Type, `parseError`) && len(cl.Elts) == 2 && prIdent(cl.Elts[0], `p`) {
+				var hoist []string
+				e := g.expr(cl.Elts[1], pc.env, &hoist)
+				if e.typ != `tok` || len(hoist) != 0 {
+					g.fail(t.Pos(), `second field of parseError`)
+				}
+				return ind + "some (some " + e.term + ", s)\n"
+			}
+		}
+		g.fail(t.Pos(), `return in parse: `+prPrint(g.fset, t))
+	}
+	g.fail(st.Pos(), `statement in parse: `+prPrint(g.fset, st))
+	return ``
+}
+
+// (*pegJSONPathParser).Parse = `return p.parse(rule...)`, Reset = `p.reset()`
+func (g *rtGen) parserMethods(b *strings.Builder, pm map[string]*ast.FuncDecl, file *ast.File) {
+	m := pm[`Parse`]
+	if m == nil || m.Body == nil {
+		g.fail(file.Pos(), `method Parse not found`)
+	}
+	ok := len(m.Recv.List[0].Names) == 1 && m.Recv.List[0].Names[0].Name == `p` && len(m.Body.List) == 1 &&
+		m.Type.Params != nil && len(m.Type.Params.List) == 1 && len(m.Type.Params.List[0].Names) == 1
+	var v string
+	if ok {
+		v = m.Type.Params.List[0].Names[0].Name
+		ell, isEll := m.Type.Params.List[0].Type.(*ast.Ellipsis)
+		ok = isEll && prIdent(ell.Elt, `int`) && m.Type.Results != nil && len(m.Type.Results.List) == 1 && prIdent(m.Type.Results.List[0].Type, `error`)
+	}
+	if ok {
+		rs, isRet := m.Body.List[0].(*ast.ReturnStmt)
+		ok = isRet && len(rs.Results) == 1
+		if ok {
+			call, isCall := rs.Results[0].(*ast.CallExpr)
+			ok = isCall && rtSelName(call.Fun) == `p.parse` && len(call.Args) == 1 && prIdent(call.Args[0], v) && call.Ellipsis.IsValid()
+		}
+	}
+	if !ok {
+		g.fail(m.Pos(), `Parse is not "func (p *pegJSONPathParser) Parse(rule ...int) error { return p.parse(rule...) }"`)
+	}
+	fmt.Fprintf(b, "/-- jsonpath.peg.go:%d -/\ndef Parse (ruleFn : Int → RT → Option (Bool × RT)) (%s : List Int) (s : RT) : Option (Option Tok × RT) :=\n  parse ruleFn %s s\n\n",
+		g.fset.Position(m.Body.Pos()).Line, rtLocalName(v), rtLocalName(v))
+	r := pm[`Reset`]
+	if r == nil || r.Body == nil {
+		g.fail(file.Pos(), `method Reset not found`)
+	}
+	ok = len(r.Recv.List[0].Names) == 1 && r.Recv.List[0].Names[0].Name == `p` && len(r.Body.List) == 1 &&
+		(r.Type.Params == nil || len(r.Type.Params.List) == 0) && (r.Type.Results == nil || len(r.Type.Results.List) == 0)
+	if ok {
+		es, isExpr := r.Body.List[0].(*ast.ExprStmt)
+		ok = isExpr
+		if ok {
+			call, isCall := es.X.(*ast.CallExpr)
+			ok = isCall && rtSelName(call.Fun) == `p.reset` && len(call.Args) == 0
+		}
+	}
+	if !ok {
+		g.fail(r.Pos(), `Reset is not "func (p *pegJSONPathParser) Reset() { p.reset() }"`)
+	}
+	fmt.Fprintf(b, "/-- jsonpath.peg.go:%d -/\ndef Reset (s : RT) : Option (RT) :=\n  reset s\n\n", g.fset.Position(r.Body.Pos()).Line)
 }
